@@ -124,6 +124,14 @@ func init() {
 			fr.i.ex.Reached["reach:"+argString(a[0])]++
 			return nil
 		},
+		"verif_cover": func(fr *frame, a []value) value {
+			fr.i.ex.Reached["cover:"+argString(a[0])]++
+			return nil
+		},
+		"verif_expect_cover": func(fr *frame, a []value) value {
+			fr.i.ex.Reached["expect:"+argString(a[0])]++
+			return nil
+		},
 		"verif_and": func(fr *frame, a []value) value { return fr.i.and(a[0], a[1]) },
 		"verif_or": func(fr *frame, a []value) value {
 			return fr.i.not(fr.i.and(fr.i.not(a[0]), fr.i.not(a[1])))
